@@ -60,7 +60,11 @@ func (p *Provider) OpenStore(name string) (storage.Store, error) {
 
 	name = strings.ToLower(name)
 
-	store := p.getLeveldbStore(name)
+	// Look-up and creation are one critical section: two callers opening the same new store get the same store.
+	p.lock.Lock()
+	defer p.lock.Unlock()
+
+	store := p.dbs[name]
 	if store == nil {
 		return p.newLeveldbStore(name)
 	}
@@ -79,8 +83,8 @@ func (p *Provider) SetStoreConfig(name string, config storage.StoreConfiguration
 
 	name = strings.ToLower(name)
 
-	openStore, ok := p.dbs[name]
-	if !ok {
+	openStore := p.getLeveldbStore(name)
+	if openStore == nil {
 		return storage.ErrStoreNotFound
 	}
 
@@ -103,8 +107,8 @@ func (p *Provider) SetStoreConfig(name string, config storage.StoreConfiguration
 func (p *Provider) GetStoreConfig(name string) (storage.StoreConfiguration, error) {
 	name = strings.ToLower(name)
 
-	openStore, ok := p.dbs[name]
-	if !ok {
+	openStore := p.getLeveldbStore(name)
+	if openStore == nil {
 		return storage.StoreConfiguration{}, storage.ErrStoreNotFound
 	}
 
@@ -175,11 +179,8 @@ func (p *Provider) getLeveldbStore(name string) *store {
 }
 
 // newLeveldbStore creates level db store for given name space
-// returns nil if not found.
+// returns nil if not found. The caller holds the provider lock.
 func (p *Provider) newLeveldbStore(name string) (*store, error) {
-	p.lock.Lock()
-	defer p.lock.Unlock()
-
 	db, err := leveldb.OpenFile(fmt.Sprintf(pathPattern, p.dbPath, name), nil)
 	if err != nil {
 		return nil, err
